@@ -25,6 +25,8 @@ type Scenario struct {
 	Check func(x *Exec) (fp, what string)
 	// Outcome classifies the execution for vacuity accounting (distinct observed outcomes).
 	Outcome func(x *Exec) string
+	// Counters returns additive per-execution counts (e.g. crash images checked) for the evidence.
+	Counters func(x *Exec) map[string]int
 }
 
 type viol struct {
@@ -38,6 +40,7 @@ type shardResult struct {
 	Stats      Stats
 	Viol       []viol
 	Outcomes   map[string]int
+	Counters   map[string]int
 	SampleRuns [][]int
 }
 
@@ -138,6 +141,7 @@ func Main(r *ev.Run, scenarios []Scenario, shards int) {
 	}
 	exhaustive := true
 	outcomes := map[string]int{}
+	counters := map[string]int{}
 	perScenario := map[string]map[string]any{}
 	var viols []viol
 	for _, sr := range results {
@@ -168,6 +172,9 @@ func Main(r *ev.Run, scenarios []Scenario, shards int) {
 		for k, v := range sr.Outcomes {
 			outcomes[sr.Scenario+": "+k] += v
 			r.Nontrivial(sr.Scenario + ": " + k)
+		}
+		for k, v := range sr.Counters {
+			counters[k] += v
 		}
 		for _, c := range sr.SampleRuns {
 			r.Sample(map[string]any{"scenario": sr.Scenario, "choices": c})
@@ -200,6 +207,9 @@ func Main(r *ev.Run, scenarios []Scenario, shards int) {
 	}
 	r.Set("scenarios", perScenario)
 	r.Set("outcome_classes", outcomes)
+	if len(counters) > 0 {
+		r.Set("counters", counters)
+	}
 	r.Set("workers", shards)
 	r.Exhaustive(exhaustive)
 	r.Finish()
@@ -216,7 +226,7 @@ func child(r *ev.Run, scenarios []Scenario, shard, shards int) {
 	w := bufio.NewWriter(os.Stdout)
 	for i := range scenarios {
 		sc := &scenarios[i]
-		sr := shardResult{Scenario: sc.Name, Outcomes: map[string]int{}}
+		sr := shardResult{Scenario: sc.Name, Outcomes: map[string]int{}, Counters: map[string]int{}}
 		opt := sc.Opt
 		opt.Shard, opt.Shards = shard, shards
 		opt.Expired = r.Expired
@@ -228,6 +238,11 @@ func child(r *ev.Run, scenarios []Scenario, shard, shards int) {
 			}
 			if sc.Outcome != nil {
 				sr.Outcomes[sc.Outcome(x)]++
+			}
+			if sc.Counters != nil {
+				for k, v := range sc.Counters(x) {
+					sr.Counters[k] += v
+				}
 			}
 			if len(sr.SampleRuns) < 1 && shard == 0 && len(x.Choices) > 0 {
 				sr.SampleRuns = append(sr.SampleRuns, x.Choices)
